@@ -121,7 +121,7 @@ def run(ctx, want):
     ids = initials(ctx.tier, ctx.seed)
     depth = 2 if ctx.quick else 3
     vec_k, vec_cap = (3, 16) if ctx.quick else (7, 49)
-    closure_cap = 0 if ctx.quick else 5000
+    closure_cap = 0 if ctx.quick else 300
     ctx.note("bounds", {"initial_modules": len(ids), "pass_sequence_depth": depth, "closure_on_small_modules_cap_states": closure_cap,
                         "pipeline_prefixes": 24, "optimize_levels": ["1", "2", "s"], "vectors": "V%d product, cap %d" % (vec_k, vec_cap)})
     fams = {}
